@@ -57,6 +57,8 @@ pub struct Ctl {
     /// the previous chopped call on this kind was an Interrupted (never two in a row,
     /// so that retry loops make progress)
     pub last_interrupted: bool,
+    /// an underlying write was attempted after the last successful underlying flush
+    pub dirty_since_flush: bool,
 }
 
 impl Default for Ctl {
@@ -74,6 +76,7 @@ impl Default for Ctl {
             chop: None,
             chop_pos: 0,
             last_interrupted: false,
+            dirty_since_flush: false,
         }
     }
 }
@@ -250,6 +253,7 @@ impl Write for Io {
         let mut allowed = buf.len();
         if let Some(ctl) = &self.ctl {
             let mut c = ctl.lock().unwrap();
+            c.dirty_since_flush = true;
             if let Some(e) = c.tick(CallKind::Write) {
                 if c.fault_side_effects && self.file.is_none() {
                     // a prefix reached the medium before the error
@@ -308,6 +312,7 @@ impl Write for Io {
             if let Some(e) = c.tick(CallKind::Flush) {
                 return Err(e);
             }
+            c.dirty_since_flush = false;
         }
         if let Some(f) = &self.file {
             return f.lock().unwrap().flush();
